@@ -18,7 +18,7 @@ CHECKS = {
         'triples including the position register after failures, both static flags at every node, and parse() outcomes, on '
         'a stratified enumeration {construct} x {restoring context} x {continuation} x all short inputs, text and bytes mode; '
         'the extracted specification judges the implementation directly (the search for a failing input).',
-   note=TB + 'Hypotheses of the theorem = the property\'s well-formedness: '
+   note=TB + 'Since 2026-09-24 the two flag methods of every expression class are also TRANSLATED from the current source on every run (harness/translate_flags.py -> Gen/FlagsGen.v) and proved equal to the model\'s (Gen/TieFlags.v). Hypotheses of the theorem = the property\'s well-formedness: '
         'non-empty choices, well-scoped lets, rule bodies well formed (the former hypothesis about Skip items that match without consuming went with the repair of that defect). Byte literals in text-mode grammars are not generated.',
    technique='Coq refinement proof (model of generated code vs PEG spec) + differential correspondence via extracted OCaml model',
    ref='DESIGN.md §6 C01'),
@@ -49,7 +49,7 @@ CHECKS = {
         'and no effect of an uncompleted list on the enclosing alternative/continuation (position restored, by the flag '
         'soundness clause). Correspondence: elements that can fail after consuming x bounds 0..3 in all four surface forms x '
         'six data-dependent forms x all 12 accepted Sep option combinations x seven contexts x all short inputs.',
-   note=TB + 'e{m,n} with run-time m > n was first left unspecified; it is now specified (the list fails), proved and repaired in /repo (see DESIGN.md, defect D41).',
+   note=TB + 'Added 2026-09-24: the translated flag tie; bounds that are parameters of a rule/class (first thing in the body), literal bounds with leading zeros, lookaheads around lists as alternatives / Skip items / Longest options. e{m,n} with run-time m > n was first left unspecified; it is now specified (the list fails), proved and repaired in /repo (see DESIGN.md, defect D41).',
    technique='Coq refinement proof + differential correspondence via extracted OCaml model',
    ref='DESIGN.md §6 C03'),
  'C04': dict(
@@ -61,7 +61,7 @@ CHECKS = {
         'checked on every run on the exported expression objects and by comparing each generated grammar with the same '
         'grammar in which the skipping is written out explicitly (l << Skip(I), start = Skip(I) >> body); lengthened '
         'ignorable runs are run as metamorphic pairs.',
-   note=TB + 'The insensitivity claim (lengthening an ignored run changes no value) is decided by metamorphic differential '
+   note=TB + 'Added 2026-09-24: ignore sets made of regular expressions only (groups, backreferences, top-level alternation), a bytes-mode stratum (byte literals, bytes strings, bytes regexes), the start rule spelled in several capitalisations; the translated flag tie. The insensitivity claim (lengthening an ignored run changes no value) is decided by metamorphic differential '
         'runs only; its simulation proof is not done (stated in DESIGN.md).',
    technique='Coq refinement proof + lemmas on flagged literals; differential check of the translator rewriting against the explicit form',
    ref='DESIGN.md §6 C04'),
@@ -74,7 +74,7 @@ CHECKS = {
         'value when the translator marked it as shadowing; the theorem assumes that mark is placed exactly when the name is in '
         'scope, which the check verifies on every exported grammar). Correspondence: scoping scenarios + random expressions, '
         'raw triples and parse outcomes, locals-dependent results.',
-   note=TB + 'The former finding (a let nested in a class member re-binding an earlier FIELD) was repaired in /repo (215eb89): the hypothesis of C05_scoping about the shadows flag now holds for class fields too and is checked on every exported grammar. Inline Python is a closed vocabulary; parameters of templates are covered under C06.',
+   note=TB + 'Added 2026-09-24: predicates false after a literal operand consumed, re-binding inside a defining expression and inside compound arguments, locals named like rules (scenarios + a metamorphic renaming stream on the implementation alone); the translated flag tie. The former finding (a let nested in a class member re-binding an earlier FIELD) was repaired in /repo (215eb89): the hypothesis of C05_scoping about the shadows flag now holds for class fields too and is checked on every exported grammar. Inline Python is a closed vocabulary; parameters of templates are covered under C06.',
    technique='Coq refinement proof with environment invariant (flat locals vs lexical scoping) + differential correspondence',
    ref='DESIGN.md §6 C05'),
  'C06': dict(
@@ -87,7 +87,7 @@ CHECKS = {
         'Correspondence: catalogue of templates x call sites (literal, compound, rule, class, nested, recursive, keyword, value, '
         'captured names, several instantiations at one position) x {unnamed, named}; each site with a finite expansion is also '
         'compared with the hand-expanded grammar on the implementation.',
-   note=TB + 'hashing of argument values as memo keys is outside the model (unhashable arguments are simply not memoised). The former finding (names used only in inline Python / counts of an argument were not captured) was repaired in /repo (88af674).',
+   note=TB + 'Added 2026-09-24: streams nested-python-arguments (Python inside a nested call: evaluated where and when the parameter is used), literal-values (a literal argument is that value: type, content, picklable), bytes half of inherited-templates; the translated flag tie. hashing of argument values as memo keys is outside the model (unhashable arguments are simply not memoised). The former finding (names used only in inline Python / counts of an argument were not captured) was repaired in /repo (88af674).',
    technique='Coq refinement proof (closure semantics of template calls) + differential correspondence and hand expansions',
    ref='DESIGN.md §6 C06'),
  'C07': dict(
@@ -100,7 +100,7 @@ CHECKS = {
         'result, body-start order and number of unkeyed starts with the extracted machine (a third of the scripts make calls through '
         'unhashable keys), and by counting evaluations per (rule, position) with '
         'wrappers around the generated _try_<rule> functions on grammar families whose un-memoised evaluation is exponential.',
-   note=TB + 'identity (`is`) of replayed results and side effects of inline Python are observed on the implementation only.',
+   note=TB + 'Added 2026-09-24: alias rules (a rule that is a bare reference), identity of list/tuple/dict values across references at one position. identity (`is`) of replayed results and side effects of inline Python are observed on the implementation only.',
    technique='Coq proof on a state-machine model of the trampoline + differential execution of the real _run against the extracted machine',
    ref='DESIGN.md §6 C07'),
  'C08': dict(
@@ -113,7 +113,7 @@ CHECKS = {
         'every expression without Backtrack (template calls included) under the stated relation of the two regex oracles. Tied to /repo by correspondence '
         'through the public API: R.parse / C.parse of every rule and class and module-level parse, all offsets, both '
         'fullparse values, all short inputs incl. empty and multi-line, values with finalised spans compared exactly.',
-   note=TB + 'The shift law is proved on the specification (hence, by refinement, on the expression machine) and compared differentially on the implementation; the line/column part of a shifted position is covered by the C09 theorems; derived grammars as entry points are covered by a three-outcome consistency stream (both fullparse values must tell the same story); inline Python is assumed not to raise.',
+   note=TB + 'Added 2026-09-24: chains of three grammars compared entry point by entry point with the grammar written without inheritance; entry points of parameterised classes with arguments of every kind (unhashable ones included). The shift law is proved on the specification (hence, by refinement, on the expression machine) and compared differentially on the implementation; the line/column part of a shifted position is covered by the C09 theorems; derived grammars as entry points are covered by a three-outcome consistency stream (both fullparse values must tell the same story); inline Python is assumed not to raise.',
    technique='Coq proof (three-outcomes theorem from the refinement theorem) + differential correspondence through the public API',
    ref='DESIGN.md §6 C08'),
  'C10': dict(
@@ -131,7 +131,7 @@ CHECKS = {
         'The same judge (extracted) runs '
         'on the implementation\'s results. Correspondence: nested/repeated/optional/separated classes, memo reuse, templates, ignore '
         'declarations, multi-line input, non-zero start offsets; raw and finalised spans of every instance compared.',
-   note=TB + 'conversion exactly once for instances shared through the memo: object identity is in FinalizeVisit.v (identities of the visit model), not in the grammar-run model; the order theorem excludes lookahead, Backtrack, reads of bound values, template calls and operator tables (Within.plain), where the judge still runs on the implementation.',
+   note=TB + 'Added 2026-09-24: class layouts (every arrangement of up to three kept/omitted/optional/looked-at members), random class bodies, instances handed back by inline Python. conversion exactly once for instances shared through the memo: object identity is in FinalizeVisit.v (identities of the visit model), not in the grammar-run model; the order theorem excludes lookahead, Backtrack, reads of bound values, template calls and operator tables (Within.plain), where the judge still runs on the implementation.',
    technique='Coq refinement + span containment proofs; extracted executable span predicate as judge; differential correspondence',
    ref='DESIGN.md §6 C10'),
  'C09': dict(
@@ -141,7 +141,7 @@ CHECKS = {
         '(Gen/ExcerptGen.v) and proved equal to the hand-written model (tie lemmas), and additionally compared with the '
         'real runtime on an exhaustive (line length, column) sweep through ParseError, PartialParseError and bytes input; '
         'the executable specification (extracted from Coq) judges the implementation\'s own output.',
-   note=TB + 'Python\'s re.search for a newline and str slicing are modelled; the claim that the failure index never lies '
+   note=TB + 'Added 2026-09-24: a blank at the failure point followed by visible text. Python\'s re.search for a newline and str slicing are modelled; the claim that the failure index never lies '
         'beyond the furthest failure is carried by the refinement theorem of C01 (failure position), not by this check.',
    technique='Coq proof over a model regenerated from source + tie lemmas; differential sweep model vs runtime',
    ref='DESIGN.md §6 C09'), 'C11': dict(
@@ -153,7 +153,7 @@ CHECKS = {
         'same position on every input; the entry points of rules, classes and parameterised classes with and without a header; inline '
         'Python whose behaviour depends on the compilation mode (assert, __debug__, docstrings, annotations). In the Coq model a `grammar <name>` header has no semantic effect at all (it only threads '
         'one more parameter through every generated signature and call), which is what the named-vs-unnamed runs confirm for the code.',
-   note=TB + 'partial: the theorems (Props/C11.v) cover the one semantic switch, uses_context; that CPython executes the emitted text the same way in a fresh module, include_source and repeated compilation are decided by differential runs (DESIGN.md §9).',
+   note=TB + 'Added 2026-09-24: variants compiled after other grammars (rules named like every constructor), descriptions nested past the block budget. partial: the theorems (Props/C11.v) cover the one semantic switch, uses_context; that CPython executes the emitted text the same way in a fresh module, include_source and repeated compilation are decided by differential runs (DESIGN.md §9).',
    technique='Coq proof of the calling-convention core (Conv.v: every call binds, a grammar name is irrelevant) + differential execution of 5 in-process variants and of the emitted source in an isolated interpreter',
    ref='DESIGN.md §6 C11'),
  'C12': dict(
@@ -178,7 +178,7 @@ CHECKS = {
         'level, ignore declarations in base and/or derived, modules used in random order) with its FLATTENED grammar on ~250 '
         'inputs, every entry point of the parent before/after, and inherited entry points; chains with templates, rule arguments, super '
         'calls with arguments, qualified grammar names, an ignore pattern of its own at every level, a class.',
-   note=TB + 'partial: importlib/sys.modules plumbing, re-parsing of the parent\'s description and ignore handling are covered by the differential runs only. Known finding (narrowed): entry points of inherited CLASSES run with the context of the parent (for inherited rules repaired in /repo). Formerly: entry points of inherited rules/classes run with the parent\'s context.',
+   note=TB + 'Added 2026-09-24: overrides that fail after consuming where the parent\'s rule could not, parent rules nested 3-11 levels deep, a named ignore rule overridden by the child. partial: importlib/sys.modules plumbing, re-parsing of the parent\'s description and ignore handling are covered by the differential runs only. Known finding (narrowed): entry points of inherited CLASSES run with the context of the parent (for inherited rules repaired in /repo). Formerly: entry points of inherited rules/classes run with the parent\'s context.',
    technique='Coq proof on a context-resolution model + differential comparison of grammar chains with their flattened grammar',
    ref='DESIGN.md §6 C13'),
  'C14': dict(
@@ -188,7 +188,7 @@ CHECKS = {
         'them, for any builtin hash that respects == on scalars), C14_replace. Tied to /repo by comparing == of the real objects '
         'with the extracted py_eq on random pairs, and the remaining API (_asdict order, _replace, copy.deepcopy, pickle round '
         'trip for the named grammar, eval(repr(o))) is judged directly on the implementation.',
-   note=TB + 'partial: dict-valued fields, deepcopy/pickle (Python copy protocol) and repr round trip are decided by differential runs only, not by a theorem; floats are excluded.',
+   note=TB + 'Added 2026-09-24: _asdict after the caller hung an attribute of its own on the object. partial: dict-valued fields, deepcopy/pickle (Python copy protocol) and repr round trip are decided by differential runs only, not by a theorem; floats are excluded.',
    technique='Coq proof (== is an equivalence, hash respects it) + differential correspondence and API-level checks on random object trees',
    ref='DESIGN.md §6 C14'),
  'C15': dict(
@@ -218,7 +218,7 @@ CHECKS = {
         'chains of 1-3 callbacks from a closed family (replace by fresh object with/without metadata, by scalar, by list, by a '
         '_replace copy, by an existing child), result tree with its identity relation to the input, metadata of every node, '
         'callback log, deep snapshot of the input before and after.',
-   note=TB + 'a callback returning an input node with empty metadata makes transform write to that node: counted in the evidence, not judged (the property speaks of replacement objects).',
+   note=TB + 'Added 2026-09-24: leaves that only look like parsed objects (namedtuples, objects of another module, look-alike classes) and containers that are not fields-and-lists pass through untouched and unvisited. a callback returning an input node with empty metadata makes transform write to that node: counted in the evidence, not judged (the property speaks of replacement objects).',
    technique='Coq proof on a functional model with identities + differential correspondence on random trees and callback chains',
    ref='DESIGN.md §6 C16'), 'C17': dict(
    text='Coq theorems: C17_wrappers_transparent (on the specification, any stack of transparent wrappers — [e], Opt(e) on a '
@@ -228,7 +228,7 @@ CHECKS = {
         'mini-language of Spill.v, so the block accounting need not be modelled). Correspondence: 10 inner expressions x 9 wrapper '
         'stacks x depths 1..120 (every depth across the 20-block threshold) x {unnamed, named} x {ignore, none} against the model '
         'and specification; recursion depth 10^3..10^5 through plain rules, templates, classes on the implementation.',
-   note=TB + 'partial: the Python/C stack is not modelled (no RecursionError is an observation); spill transparency is proved on a mini-language, the full model has no spilling. The former finding (names read only via inline Python / counts were not passed to the split-off helper) was repaired in /repo (88af674).',
+   note=TB + 'Added 2026-09-24: deep recursion through templates whose argument grows with the depth and through parameterised classes; deeply nested rules of a parent grammar used through a child (late binding kept at every depth). partial: the Python/C stack is not modelled (no RecursionError is an observation); spill transparency is proved on a mini-language, the full model has no spilling. The former finding (names read only via inline Python / counts were not passed to the split-off helper) was repaired in /repo (88af674).',
    technique='Coq proofs (wrappers transparent at any depth; helper spilling transparent) + differential correspondence across the block-budget threshold',
    ref='DESIGN.md §6 C17'), 'C18': dict(
    text='Coq theorems on the model of a module with a history (the grammar plus a log of earlier calls): '
@@ -239,7 +239,7 @@ CHECKS = {
         'because inline Python raises) against freshly built modules, 2-8 threads x 150 calls with a 1 microsecond switch '
         'interval, nested parses from every callback kind (|>, where, class field, requires, module-level parse), compiling an '
         'extending grammar and a grammar that re-uses the name.',
-   note=TB + 'partial: a theorem about the model cannot exhibit a data race in CPython or state the model does not know about; those halves are exploration.',
+   note=TB + 'Added 2026-09-24: threads CONSTRUCTING grammars at the same time, the same descriptions compiled in several orders, sequences that use a grammar name again, grammars that build lists/dicts in inline Python, entry points of parameterised classes called with equal-looking arguments. partial: a theorem about the model cannot exhibit a data race in CPython or state the model does not know about; those halves are exploration.',
    technique='Coq purity/commutation theorems on the call-history model + history, thread-schedule and re-entrancy runs against fresh modules',
    ref='DESIGN.md §6 C18'), 'C19': dict(
    text='Coq theorems on a model of _create_parsing_expression (Elab.v, constructor-call form included): each documented pair '
@@ -250,7 +250,7 @@ CHECKS = {
         'alternatives (= : =>, ; vs newline, comments, blank lines, line breaks around operators, redundant parentheses, '
         'ignore/ignored, bare expression) are decided by rendering generated grammars in several spellings and comparing the '
         'exported expression objects and the behaviour.',
-   note=TB + 'partial: spelling variants at the character level live in the meta-grammar text and are decided by differential runs; nested choices flatten with | but nest with Choice(): compared by behaviour.',
+   note=TB + 'Added 2026-09-24: bounds that are names in both spellings, constructor forms without operands. partial: spelling variants at the character level live in the meta-grammar text and are decided by differential runs; nested choices flatten with | but nest with Choice(): compared by behaviour.',
    technique='Coq proof on an elaboration model (sugar pairs, grouping table) + differential comparison of exported expression objects across spellings',
    ref='DESIGN.md §6 C19'), 'C20': dict(
    text='Coq theorem on the namespace model (Names.v): user identifiers never start with an underscore, the generator\'s registers and '
@@ -263,7 +263,7 @@ CHECKS = {
         'behavioural claim — renaming changes nothing else — by renaming runs: six grammar templates x one identifier at a time renamed '
         'into every temporary look-alike, runtime scratch names, builtins, constructor names, plus fresh identifiers, compared with '
         'the plain grammar on every input and with the Coq model.',
-   note=TB + 'partial: the theorems cover function-level names and the numbered module-level functions of the generator; the static scan checks on every run that no module-level name the generator defines has the shape X/_parse_X/_try_X. Known findings (each listed by identifier): locals named len/slice, rules named like builtins the runtime calls, templates named like expression constructors. The renaming-equivariance theorem of the expression model is not proved.',
+   note=TB + 'Added 2026-09-24: every lower-case builtin of the running Python as a name, a template with literal-bounded repetitions, results of renamed grammars used through transform/_replace/_asdict/==/hash/repr/deepcopy/visit, a parent rule overridden or used by a child renamed into identifiers beginning with super/ctx/override/extends. partial: the theorems cover function-level names and the numbered module-level functions of the generator; the static scan checks on every run that no module-level name the generator defines has the shape X/_parse_X/_try_X. Known findings (each listed by identifier): locals named len/slice, rules named like builtins the runtime calls, templates named like expression constructors. The renaming-equivariance theorem of the expression model is not proved.',
    technique='Coq hygiene theorem on a namespace model + static scan of emitted code + differential renaming runs',
    ref='DESIGN.md §6 C20'),
 }
